@@ -256,3 +256,77 @@ def outline_doc(n, lev, tgt, variant):
                 d["A"] = {"S": Name("GoTo"), "D": dest}
         o.objs[root_id if i == 0 else ids[i]] = d
     return o.finish({"Outlines": Ref(root_id)}, variant), {"ids": ids}
+
+
+# ------------------------------------------------------------------------------------------------ dumpoutline cases
+def dumpoutline_doc(dest, action, nv, npages=2):
+    """A document for one terminal state of specs/nav/DumpPdf.tla: outline item 1 ("One") has the /Dest and /A given
+    by the value records `dest` and `action`; the name they may mention ("nm", as string and as name object) stands
+    for `nv`; item 2 ("Two") simply shows the last page, so that a run that is cut short at item 1 is visible."""
+    o = _Objs(npages)
+    root_id, one, two = o.reserve(), o.reserve(), o.reserve()
+
+    def value(v):
+        k = v["k"]
+        if k == "none":
+            return None
+        if k == "arr":
+            pg = v["pg"]
+            first = Ref(o.page_ids[pg - 1]) if pg >= 1 else Ref(2) if pg == -1 else 0
+            return [first, Name("XYZ"), 0, 0, 0]
+        if k == "str":
+            return b"nm"
+        if k == "lit":
+            return Name("nm")
+        if k == "dict":
+            return {"D": value(v["d"])} if v["d"]["k"] != "noD" else {"Other": 1}
+        if k == "ref":
+            return o.new(value(v["v"]))
+        if k == "act":
+            d = {"S": Name(v["s"])}
+            if v["d"]["k"] != "none":
+                d["D"] = value(v["d"])
+            if v["s"] == "URI":
+                d["URI"] = b"http://example.invalid/"
+            return d
+        raise ValueError(v)
+
+    item = {"Title": b"One", "Parent": Ref(root_id), "Next": Ref(two)}
+    if dest["k"] != "none":
+        item["Dest"] = value(dest)
+    if action["k"] != "none":
+        item["A"] = value(action)
+    o.objs[root_id] = {"Type": Name("Outlines"), "First": Ref(one), "Last": Ref(two), "Count": 2}
+    o.objs[one] = item
+    o.objs[two] = {"Title": b"Two", "Parent": Ref(root_id), "Prev": Ref(one), "Dest": [Ref(o.page_ids[-1]), Name("Fit")]}
+    cat = {"Outlines": Ref(root_id)}
+    names = [b"aa", [Ref(o.page_ids[0]), Name("Fit")]]
+    dests = {"aa": [Ref(o.page_ids[0]), Name("Fit")]}
+    if nv["k"] != "absent":
+        names += [b"nm", value(nv)]
+        dests["nm"] = value(nv)
+    names += [b"zz", [Ref(o.page_ids[0]), Name("Fit")]]
+    cat["Names"] = {"Dests": o.new({"Names": names})}
+    cat["Dests"] = dests
+    return o.finish(cat, 0)
+
+
+def objects_doc(secs, objs, variant=0):
+    """A document for the dumpallobjs loop of specs/nav/DumpXml.tla: test object i of the model is object 10 + i of
+    the file; secs (newest first) say which test objects each cross-reference section lists.  The oldest section
+    also holds the catalog and one page.  -> (pdf bytes, build(object record) hook is the caller's)"""
+    from .pdfwriter import Raw
+    revs = []
+    order = list(reversed(secs))            # oldest first
+    for n, sec in enumerate(order):
+        body = {}
+        if n == 0:
+            body[1] = {"Type": Name("Catalog"), "Pages": Ref(2)}
+            body[2] = {"Type": Name("Pages"), "Kids": [Ref(3)], "Count": 1}
+            body[3] = {"Type": Name("Page"), "Parent": Ref(2), "MediaBox": [0, 0, 10, 10]}
+        else:
+            body[3] = {"Type": Name("Page"), "Parent": Ref(2), "MediaBox": [0, 0, 10 + n, 10]}
+        for i in sec["ids"]:
+            body[10 + i] = objs[i - 1]
+        revs.append(Revision(dict(sorted(body.items())), root=Ref(1)))
+    return build(revs)[0]
